@@ -154,7 +154,7 @@ def rule_separator_pairing(ctx: Ctx, rule: str) -> None:
                    'separator is emitted only outside path mode or directly behind _restrict_extended_slash()')
     repo = ctx.repo
     n_top = n_bare = 0
-    for qn in ('WcParse._references', 'WcParse.root', 'WcParse.parse_extend', 'WcParse._handle_star'):
+    for qn in ('WcParse.root', 'WcParse.parse_extend', 'WcParse._handle_star'):  # _references: decided by its table (C02-R9)
         fi = repo.func(WP, qn)
         q = fq(fi)
         tops, bare = _sep_emissions(fi)
@@ -221,11 +221,10 @@ def rule_separator_pairing(ctx: Ctx, rule: str) -> None:
             ctx.ob(rule, key, ok, site, 'outside path mode, or directly behind _restrict_extended_slash()',
                    'non-path branch' if nonpath else ('restricted' if restricted else f'{norm_src(p)}; guards {sorted(g)}'),
                    witness="globmatch('a/b', '@(a/b)', EXTGLOB) must be False")
-    ctx.floor(rule, 'top-level separator emissions', n_top, 2)
-    ctx.floor(rule, 'bare separator emissions', n_bare, 3)
+    ctx.floor(rule, 'top-level separator emissions', n_top, 1)
+    ctx.floor(rule, 'bare separator emissions', n_bare, 1)
     # named instances: the places where a written separator must become a run of separators
-    for qn, conds in (('WcParse.root', [("c == '/'", 'self.pathname')]),
-                      ('WcParse._references', [("c == '/'", 'self.pathname'), ("c == '\\\\'", 'self.bslash_abort')])):
+    for qn, conds in (('WcParse.root', [("c == '/'", 'self.pathname')]),):
         fi = repo.func(WP, qn)
         q = fq(fi)
         tops, _b = _sep_emissions(fi)
@@ -279,27 +278,8 @@ def rule_bracket_abort(ctx: Ctx, rule: str) -> None:
         n += 1
         ctx.ob(rule, f'{mod}:{cls}._sequence/pathname-exception-converted', bool(conv), repo.loc(mod, seqf.node),
                'except PathNameException: raise StopIteration', f'{len(conv)} handler(s)')
-        ref = repo.func(mod, f'{cls}._references')
-        q2 = fq(ref)
-        pn = [r for r in q2.stmts(lambda x: isinstance(x, ast.Raise)) if r.exc is not None and
-              norm_src(r.exc).endswith('PathNameException')]
-        found = {'/': False, '\\': False}
-        for r in pn:
-            g = q2.guards(r)
-            if ('sequence', 'T') not in g:
-                continue
-            if ("c == '/'", 'T') in g and (not has_pathname_attr or ('self.pathname', 'T') in g):
-                found['/'] = True
-            if ("c == '\\\\'", 'T') in g and ('self.bslash_abort', 'T') in g:
-                found['\\'] = True
-        for ch, okc in found.items():
-            n += 1
-            ctx.ob(rule, f'{mod}:{cls}._references/abort-on-escaped-{"slash" if ch == "/" else "backslash"}', okc,
-                   repo.loc(mod, ref.node),
-                   f'raise PathNameException under sequence and c == {ch!r} and ' + ('pathname' if ch == '/' else 'bslash_abort'),
-                   'present' if okc else f'{len(pn)} PathNameException raise(s), none with these guards',
-                   witness=r"globmatch('a[\\/]b', 'a[\\/]b') -- escaped separator inside brackets aborts the bracket")
-    ctx.floor(rule, 'scanner abort predicates', n, 12)
+    # the _references half of the abort predicate is decided by the decision tables of C02-R9
+    ctx.floor(rule, 'scanner abort predicates', n, 6)
 
 
 def bit_attr_table(ev: SymEval, paths: list, name: str, oracle: Any) -> tuple[bool, str, int]:
@@ -519,31 +499,8 @@ def rule_nodir(ctx: Ctx, rule: str) -> None:
                    'is_unix; the text twins _NO_NIX_DIR/_NO_WIN_DIR equal RE_NO_DIR/RE_WIN_NO_DIR patterns; each denotes '
                    '"ends in a separator, or last segment is . or .."')
     repo = ctx.repo
-    for fn_name, nix, win in (('translate', '_NO_NIX_DIR', '_NO_WIN_DIR'), ('compile_pattern', 'RE_NO_DIR', 'RE_WIN_NO_DIR')):
-        fi = repo.func(WP, fn_name)
-        q = fq(fi)
-        apps = [c for c in q.calls(lambda s: s == 'negative.append') if c.args and isinstance(c.args[0], ast.IfExp)]
-        found = False
-        for c in apps:
-            e = c.args[0]
-            t = norm_src(e.test)
-            body, orelse = norm_src(e.body), norm_src(e.orelse)
-            if t == 'not is_unix':
-                body, orelse = orelse, body
-                t = 'is_unix'
-            g = q.guards(c)
-            if t == 'is_unix' and body.startswith(nix + '[') and orelse.startswith(win + '[') and \
-                    ('positive', 'T') in g and ('flags & NODIR', 'T') in g:
-                found = True
-        ctx.ob(rule, f'{WP}:{fn_name}/nodir-tail', found, repo.loc(WP, fi.node),
-               f'negative.append({nix}[k] if is_unix else {win}[k]) under positive ∧ flags & NODIR',
-               'present' if found else '; '.join(norm_src(c) for c in apps) or 'no such append',
-               witness="globfilter(['a/', 'b'], '*', NODIR) == ['b']; on FORCEWIN `a\\\\` is a directory too")
-        # is_unix derives from is_unix_style(flags)
-        defs = [a for a in q.stmts(lambda n: isinstance(n, ast.Assign)) if any(isinstance(t, ast.Name) and t.id == 'is_unix' for t in a.targets)]
-        okd = len(defs) == 1 and norm_src(defs[0].value) == 'is_unix_style(flags)'
-        ctx.ob(rule, f'{WP}:{fn_name}/is_unix-definition', okd, repo.loc(WP, defs[0] if defs else fi.node),
-               'is_unix = is_unix_style(flags)', '; '.join(norm_src(d) for d in defs))
+    from . import pipeline
+    pipeline.rule_pipeline_tail(ctx, rule, which={'nodir-tail', 'platform-source'}, text=False)
     for var, nixn, ren in (('unix', '_NO_NIX_DIR', 'RE_NO_DIR'), ('win', '_NO_WIN_DIR', 'RE_WIN_NO_DIR')):
         text = repo.const(WP, nixn)
         rc = repo.const(WP, ren)
@@ -625,11 +582,8 @@ def rule_forced_pathname(ctx: Ctx, rule: str) -> None:
                         writers.add(fi.name)
         ctx.ob(rule, f'glob:Glob/self.{attr}-writers', writers == {'__init__'}, repo.loc('glob', repo.cls('glob', 'Glob').node),
                'written only in __init__', str(sorted(writers)))
-    gi = repo.func('glob', 'Glob.__init__')
-    init_assign = [a for a in walk_no_nested(gi.node) if isinstance(a, ast.Assign) and any(norm_src(t) == 'self.flags' for t in a.targets)]
-    ok3 = bool(init_assign) and '_flag_transform(' in norm_src(init_assign[0].value)
-    ctx.ob(rule, 'glob:Glob.__init__/self.flags-definition', ok3, repo.loc('glob', gi.node),
-           'self.flags = _flag_transform(...)', norm_src(init_assign[0]) if init_assign else 'missing')
+    from . import ginit
+    ginit.rule_walker_bits(ctx, rule, which={'realpath-forced'})
 
 
 def _transformed(fi: Any, expr: ast.AST, seen: set[str]) -> bool:
